@@ -14,8 +14,8 @@ import (
 	"strings"
 	"time"
 
-	"github.com/WICG/webpackage/go/signedexchange"
 	"crypto/x509"
+	"github.com/WICG/webpackage/go/signedexchange"
 
 	"github.com/WICG/webpackage/go/signedexchange/certurl"
 	sh "github.com/WICG/webpackage/go/signedexchange/structuredheader"
@@ -339,16 +339,26 @@ func run(r *mon.Run) {
 		edit("url=path", func(e *signedexchange.Exchange) { e.RequestURI += "x" })
 		edit("url=query", func(e *signedexchange.Exchange) { e.RequestURI += "?a" })
 		edit("url=case", func(e *signedexchange.Exchange) { e.RequestURI = strings.Replace(e.RequestURI, "/p", "/P", 1) })
-		edit("url=host", func(e *signedexchange.Exchange) { e.RequestURI = strings.Replace(e.RequestURI, "example.com", "example.org", 1) })
-		edit("url=trailing-dot-host", func(e *signedexchange.Exchange) { e.RequestURI = strings.Replace(e.RequestURI, "example.com/", "example.com./", 1) })
+		edit("url=host", func(e *signedexchange.Exchange) {
+			e.RequestURI = strings.Replace(e.RequestURI, "example.com", "example.org", 1)
+		})
+		edit("url=trailing-dot-host", func(e *signedexchange.Exchange) {
+			e.RequestURI = strings.Replace(e.RequestURI, "example.com/", "example.com./", 1)
+		})
 		// spellings that a URL library treats as the same URL: the format signs the bytes, not the parsed URL
 		edit("url=scheme-case", func(e *signedexchange.Exchange) { e.RequestURI = "Https" + strings.TrimPrefix(e.RequestURI, "https") })
 		edit("url=empty-fragment", func(e *signedexchange.Exchange) { e.RequestURI += "#" })
 		edit("url=empty-query", func(e *signedexchange.Exchange) { e.RequestURI += "?" })
 		edit("url=escaped-letter", func(e *signedexchange.Exchange) { e.RequestURI = strings.Replace(e.RequestURI, "/p", "/%70", 1) })
-		edit("url=host-case", func(e *signedexchange.Exchange) { e.RequestURI = strings.Replace(e.RequestURI, "example.com", "Example.com", 1) })
-		edit("url=dot-segment", func(e *signedexchange.Exchange) { e.RequestURI = strings.Replace(e.RequestURI, "example.com/", "example.com/./", 1) })
-		edit("url=port", func(e *signedexchange.Exchange) { e.RequestURI = strings.Replace(e.RequestURI, "example.com/", "example.com:443/", 1) })
+		edit("url=host-case", func(e *signedexchange.Exchange) {
+			e.RequestURI = strings.Replace(e.RequestURI, "example.com", "Example.com", 1)
+		})
+		edit("url=dot-segment", func(e *signedexchange.Exchange) {
+			e.RequestURI = strings.Replace(e.RequestURI, "example.com/", "example.com/./", 1)
+		})
+		edit("url=port", func(e *signedexchange.Exchange) {
+			e.RequestURI = strings.Replace(e.RequestURI, "example.com/", "example.com:443/", 1)
+		})
 		edit("status=+1", func(e *signedexchange.Exchange) { e.ResponseStatus++ })
 		edit("status=404", func(e *signedexchange.Exchange) { e.ResponseStatus = 404 })
 		edit("method=HEAD", func(e *signedexchange.Exchange) { e.RequestMethod = "HEAD" })
@@ -482,7 +492,9 @@ func run(r *mon.Run) {
 			orig, _ := rewriteSig(s, func(pi *sh.ParameterisedIdentifier, pl *sh.ParameterisedList) {})
 			_ = orig
 			var n int
-			rewriteSig(s, func(pi *sh.ParameterisedIdentifier, pl *sh.ParameterisedList) { n = len(pi.Params[sh.Key(pname)].([]byte)) })
+			rewriteSig(s, func(pi *sh.ParameterisedIdentifier, pl *sh.ParameterisedList) {
+				n = len(pi.Params[sh.Key(pname)].([]byte))
+			})
 			for bit := 0; bit < 8*n; bit++ {
 				bit := bit
 				sigEdit(fmt.Sprintf("%s-bit@%d", pname, bit), func(pi *sh.ParameterisedIdentifier, pl *sh.ParameterisedList) {
@@ -508,8 +520,12 @@ func run(r *mon.Run) {
 				})
 			}
 		}
-		sigEdit("validity-url=other-path", func(pi *sh.ParameterisedIdentifier, pl *sh.ParameterisedList) { pi.Params["validity-url"] = pi.Params["validity-url"].(string) + "2" })
-		sigEdit("validity-url=other-origin", func(pi *sh.ParameterisedIdentifier, pl *sh.ParameterisedList) { pi.Params["validity-url"] = "https://evil.example/v" })
+		sigEdit("validity-url=other-path", func(pi *sh.ParameterisedIdentifier, pl *sh.ParameterisedList) {
+			pi.Params["validity-url"] = pi.Params["validity-url"].(string) + "2"
+		})
+		sigEdit("validity-url=other-origin", func(pi *sh.ParameterisedIdentifier, pl *sh.ParameterisedList) {
+			pi.Params["validity-url"] = "https://evil.example/v"
+		})
 		sigEdit("integrity=other", func(pi *sh.ParameterisedIdentifier, pl *sh.ParameterisedList) {
 			if pi.Params["integrity"].(string) == "mi-draft2" {
 				pi.Params["integrity"] = "digest/mi-sha256-03"
@@ -517,12 +533,16 @@ func run(r *mon.Run) {
 				pi.Params["integrity"] = "mi-draft2"
 			}
 		})
-		sigEdit("cert-url=other(unsigned)", func(pi *sh.ParameterisedIdentifier, pl *sh.ParameterisedList) { pi.Params["cert-url"] = "https://cdn.example/cert" })
+		sigEdit("cert-url=other(unsigned)", func(pi *sh.ParameterisedIdentifier, pl *sh.ParameterisedList) {
+			pi.Params["cert-url"] = "https://cdn.example/cert"
+		})
 		sigEdit("label=other(unsigned)", func(pi *sh.ParameterisedIdentifier, pl *sh.ParameterisedList) { pi.Label = "other" })
 		for _, pname := range []string{"sig", "cert-sha256", "date", "expires", "validity-url", "integrity", "cert-url"} {
 			pname := pname
 			sigEdit("dropped="+pname, func(pi *sh.ParameterisedIdentifier, pl *sh.ParameterisedList) { delete(pi.Params, sh.Key(pname)) })
-			sigEdit("wrong-type="+pname, func(pi *sh.ParameterisedIdentifier, pl *sh.ParameterisedList) { pi.Params[sh.Key(pname)] = sh.Token("tok") })
+			sigEdit("wrong-type="+pname, func(pi *sh.ParameterisedIdentifier, pl *sh.ParameterisedList) {
+				pi.Params[sh.Key(pname)] = sh.Token("tok")
+			})
 		}
 		sigEdit("extra-param(unsigned)", func(pi *sh.ParameterisedIdentifier, pl *sh.ParameterisedList) { pi.Params["zz-extra"] = int64(1) })
 		sigEdit("duplicated-member", func(pi *sh.ParameterisedIdentifier, pl *sh.ParameterisedList) { *pl = append(*pl, *pi) })
@@ -558,12 +578,12 @@ func run(r *mon.Run) {
 			return b.Bytes()
 		}()
 		fetchers := map[string]signedexchange.CertFetcher{
-			"foreign-certificate":       foreign.Fetcher(),
-			"same-subject-other-key":    sameSubject.Fetcher(),
+			"foreign-certificate":        foreign.Fetcher(),
+			"same-subject-other-key":     sameSubject.Fetcher(),
 			"same-key-other-certificate": func(string) ([]byte, error) { return sameKeyOtherCert, nil },
-			"fetch-error":               func(string) ([]byte, error) { return nil, fmt.Errorf("no network") },
-			"empty":                     func(string) ([]byte, error) { return nil, nil },
-			"truncated-chain":           func(string) ([]byte, error) { return s.spec.ID.CBOR[:len(s.spec.ID.CBOR)/2], nil },
+			"fetch-error":                func(string) ([]byte, error) { return nil, fmt.Errorf("no network") },
+			"empty":                      func(string) ([]byte, error) { return nil, nil },
+			"truncated-chain":            func(string) ([]byte, error) { return s.spec.ID.CBOR[:len(s.spec.ID.CBOR)/2], nil },
 		}
 		if len(s.spec.ID.Certs) > 1 {
 			sw, _ := certurl.NewCertChain([]*x509.Certificate{s.spec.ID.Certs[1], s.spec.ID.Certs[0]}, []byte("ocsp"), nil)
@@ -583,7 +603,9 @@ func run(r *mon.Run) {
 					}
 				}
 				if leaf != nil {
-					v, ok := rewriteSig(s, func(pi *sh.ParameterisedIdentifier, pl *sh.ParameterisedList) { pi.Params["cert-sha256"] = leaf.CertSha256() })
+					v, ok := rewriteSig(s, func(pi *sh.ParameterisedIdentifier, pl *sh.ParameterisedList) {
+						pi.Params["cert-sha256"] = leaf.CertSha256()
+					})
 					if ok {
 						c := clone(s.e)
 						c.SignatureHeaderValue = v
